@@ -113,6 +113,11 @@ where
 
     /// Await this task until it is ready and we've received the result.
     pub async fn ready(&self) -> T {
+        // Register for the ready signal _before_ checking for an existing result. A `Notified`
+        // future receives wakeups from `notify_waiters` from the moment it was created, so a
+        // signal fired between the check and the await below can not get lost.
+        let notified = self.ready_signal.notified();
+
         // Check if an result already exists and return it directly.
         {
             let ready_result = self.ready_result.lock().await;
@@ -127,7 +132,7 @@ where
         p2panda_core::verif::point("task_ready:after_check");
 
         // If not, we wait until we got notified that an result exists.
-        self.ready_signal.notified().await;
+        notified.await;
 
         let ready_result = self.ready_result.lock().await;
         ready_result
